@@ -2,7 +2,7 @@ SPECIFICATION Spec
 CONSTANTS
   NameSeq <- NamesAB
   MaxFile = 4
-  MaxLen = 5
+  MaxLen = 6
   Counts <- Counts13
   CfgSet <- CfgRefs
   MODE = "refs"
